@@ -14,6 +14,12 @@ func (cs ClientState) ExportMetadata(store storetypes.KVStore) []exported.Genesi
 		gm = append(gm, clienttypes.NewGenesisMetadata(key, val))
 		return false
 	})
+	// the iteration keys drive pruning of expired consensus states and must survive a restart too
+	iterator := storetypes.KVStorePrefixIterator(store, []byte(KeyIterateConsensusStatePrefix))
+	defer iterator.Close()
+	for ; iterator.Valid(); iterator.Next() {
+		gm = append(gm, clienttypes.NewGenesisMetadata(iterator.Key(), iterator.Value()))
+	}
 	if len(gm) == 0 {
 		return nil
 	}
